@@ -47,8 +47,8 @@ def numOK (d : List Char) : Bool :=
 
 /-- R1C1 mode: consume_reference_r1c1 fails INSIDE the name, whatever follows it: the name does not
     start with `R`, or its second character is not a digit (it cannot be a sign or a bracket).
-    Excluded: the name `R` and names like `R1C`, `R2D2` (tied by the differential run; `R1C+1`
-    is read as a reference, finding F26-r1c-name). -/
+    Excluded: the name `R` and names like `R1C`, `R2D2` (tied by the differential run; in the pinned
+    tree `R1C+1` was read as the reference R1C1: finding F26-r1c-name, repaired). -/
 def rcSafe (s : List Char) : Bool :=
   match s with
   | [] => false
@@ -71,10 +71,12 @@ def identOK (cfg : LexCfg) (s : List Char) : Bool :=
 def refOK (r : PRef) : Bool :=
   decide (1 ≤ r.row) && decide (r.row ≤ 1048576) && decide (1 ≤ r.column) && decide (r.column ≤ 16384)
 
-/-- R1C1 mode: row and column (absolute numbers or offsets) are `i32`s -/
+/-- R1C1 mode: row and column are `i32`s; an absolute one (written without brackets) is not
+    negative (C22 `RcWritable`) -/
 def refOKRC (r : PRef) : Bool :=
   decide (-2147483648 ≤ r.row) && decide (r.row ≤ 2147483647) &&
-  decide (-2147483648 ≤ r.column) && decide (r.column ≤ 2147483647)
+  decide (-2147483648 ≤ r.column) && decide (r.column ≤ 2147483647) &&
+  (!r.absRow || decide (0 ≤ r.row)) && (!r.absCol || decide (0 ≤ r.column))
 
 /-- a sheet name the printer can write and the lexer reads back: not empty -/
 def sheetOK : Option (List Char) → Bool
